@@ -5,6 +5,6 @@ CONSTANTS
   Idx = {0, 1, 2, 3, 4}
   NegIdx = {1, 4}
   MaxLen = 3
-  Polys <- OnePoly
+  Polys <- SomePolys
   Aligned = TRUE
-INVARIANTS Emit
+INVARIANTS Emit TypeOK RecoversSecret ErrIffShort NeverPanics UsesFirstK MatchesFunction OwnValues
